@@ -155,7 +155,7 @@ def cross_corpus():
         return ('b"%s"' if isb else '"%s"') % esc
     toks = ['ab', 'if', 'K', '=>', 'a.b', '<<', '\u00e9t\u00e9', '\u01c5']
     regs = ['[a-c]+x', 'k[a-z]?', '\u00e9+', '[0-_]+', 'a{2,3}', 'x$', 'a(?-u:\\b)', '[^a-y]z', '(?:ab|cd)+', '[0-9]{2}', '.x', 'a\\x41']
-    argsets = [[], ['priority = 3'], ['ignore(case)'], ['priority = 3', 'ignore(case)'], ['priority = 30']]
+    argsets = [[], ['priority = 3'], ['ignore(case)'], ['priority = 3', 'ignore(case)'], ['priority = 30'], ['priority = 65536'], ['priority = 65600']]
     out = []; k = 0
     for bmode in (False, True):
         hdr = '#[logos(utf8 = false)] ' if bmode else ''
@@ -176,4 +176,15 @@ def cross_corpus():
                     if args in ([], ['priority = 3'], ['ignore(case)']):
                         out.append('#[derive(Logos)] %s#[logos(skip(%s%s))] enum X%d { %s }' % (hdr, rs(r, isb), a, k, fill)); k += 1
                 out.append('#[derive(Logos)] %s#[logos(skip %s)] enum X%d { %s }' % (hdr, rs(r, isb), k, fill)); k += 1
+    # byte-mode regexes whose literal runs are not valid UTF-8 (Pattern::complexity counts bytes there, characters otherwise),
+    # and loops over one range anchored at 0x00 or 0xFF
+    for r in ['\\xE2\\x82', '\\xF0\\x9F\\x98', '\\xC3\\xA9\\xFF', '\\xFF\\xFE', 'a\\xE2\\x82b', '(?-u:[\\x80-\\xFF])+', '(?-u:[\\x00-\\x20])+q']:
+        for args in ([], ['priority = 4'], ['priority = 2']):
+            a = ''.join(', ' + x for x in args)
+            out.append('#[derive(Logos)] #[logos(utf8 = false)] enum X%d { #[regex(b"%s"%s)] A, #[regex(b"(?-u:[\\x80-\\xFF])(?-u:[\\x80-\\xFF])", priority = 4)] W, #[token(b"~")] Z }' % (k, r, a)); k += 1
+    for r in ['[\\x00-\\x20]+', '[[:ascii:]]+x', '[\\x00-\\x1F]*!']:
+        out.append('#[derive(Logos)] enum X%d { #[regex("%s")] A, #[token("~~")] Z }' % (k, r)); k += 1
+    # a longer token that extends a higher-priority shorter one by exactly one byte (promptness of partial lexing)
+    out.append('#[derive(Logos)] enum X%d { #[token("=", priority = 10)] Eq, #[token("==")] EqEq, #[regex("[a-z]+")] W }' % k); k += 1
+    out.append('#[derive(Logos)] enum X%d { #[token("if")] If, #[regex("[a-z]*!")] Macro, #[token(" ")] Sp }' % k); k += 1
     return out
